@@ -85,12 +85,12 @@ UNIT = Unit(
            pre_rewrites=PRE, rewrites=RW,
            obligation="every input statement is kept (DCE'd inside), reduced to the evaluation of its right-hand side, or — only if "
                       "that cannot have an effect — dropped; order and multiplicity preserved",
-           contract="ensures aligned(block.stmts@, 0, r.0.stmts@, 0),\n        decreases block,",
-           ghost=[("@entry", "", "proof { broadcast use lemma_aligned_empty; }"), ("@entry", "", f"let ghost {INS} = block.stmts@;"),
+           contract="ensures aligned(block.stmts@, 0, r.0.stmts@, 0), r.0.stmts@.len() == 0 ==> aligned(block.stmts@, 0, Seq::<Stmt>::empty(), 0),\n        decreases block,",
+           ghost=[("@entry", "", f"let ghost {INS} = block.stmts@;"),
                   ("@loop:0:body", "", "let ghost out_b = out@; let ghost p0 = __sv@.len();"),
                   ("@loop:0:end", "", f"proof {{ let img = out@.subrange(out_b.len() as int, out@.len() as int).reverse(); "
                                       f"assert(out@.reverse() =~= img + out_b.reverse()); lemma_aligned_step({INS}, p0 as int, out_b.reverse(), img); }}"),
-                  ("?vec_reverse(&mut out);", "line-after", f"proof {{ assert(out@.reverse().reverse() =~= out@); }}")],
+                  ("?vec_reverse(&mut out);", "line-after", f"proof {{ assert(out@.reverse().reverse() =~= out@); if out@.len() == 0 {{ assert(out@ =~= Seq::<Stmt>::empty()); }} }}")],
            loop_fn=loop_inv),
     ],
 )
